@@ -232,6 +232,11 @@ def _classify(diags, table, unit, cfg, text_lines=None, lifted=None):
                 props = list(cfg['properties'])
             else:
                 props = list(cfg.get('unnamed', cfg['properties']))
+                # a panic / overflow site without a clause name: the derive must not panic (C16), an export must return an
+                # error instead of panicking (C17) -- decided by the crate the failing line was lifted from
+                for prefix, ps in (cfg.get('unnamed_by_path') or {}).items():
+                    if src_loc and str(src_loc).startswith(prefix) and all(p in cfg['properties'] for p in ps):
+                        props = list(ps)
         rec = {'obligation': obligation, 'kind': kind, 'message': msg.split('\n')[0], 'source': src_loc, 'labels': labels,
                'properties': props, 'canary': canary, 'rendered': d.get('rendered', '')[:4000],
                'function': enclosing_fn(text_lines, labels[0]['assembled_line']) if (text_lines and labels and not str(labels[0]['file']).startswith('vstd:')) else None}
@@ -261,10 +266,18 @@ def _classify(diags, table, unit, cfg, text_lines=None, lifted=None):
     return failures, undecided
 
 
+RUN_TAG = '_unit'   # the property being checked: every invocation assembles and verifies in its own directory, so that several
+                    # checks may run side by side (bin/check C05 & bin/check C13 & ...) without touching each other's files
+
+
+def unit_dir(unit):
+    return os.path.join(WORK, 'units', RUN_TAG, unit)
+
+
 def _run_unit_once(unit, tier, seed, carry):
     cfg = units_cfg()[unit]
     t0 = time.time()
-    wdir = os.path.join(WORK, 'units', unit)
+    wdir = unit_dir(unit)
     shutil.rmtree(wdir, ignore_errors=True)
     os.makedirs(wdir, exist_ok=True)
     res = {'unit': unit, 'status': 'ok', 'failures': [], 'undecided': [], 'properties': cfg['properties'], 'tier': tier,
@@ -462,7 +475,7 @@ def run_unit(unit, tier='quick', seed=0):
         if not new and carry.get('degrade') is not True and r['status'] == 'undecided' and ghost_errs:
             # only the functions whose ghost text is in error are degraded; the others keep their full contracts
             try:
-                tl = open(os.path.join(WORK, 'units', unit, 'u_' + unit + '.rs'), encoding='utf-8').read().split('\n')
+                tl = open(os.path.join(unit_dir(unit), 'u_' + unit + '.rs'), encoding='utf-8').read().split('\n')
             except OSError:
                 tl = []
             fns = set()
@@ -520,6 +533,8 @@ def known_findings():
 
 def check_property(pid, tier='quick', seed=0):
     from driver import replay as rp
+    global RUN_TAG
+    RUN_TAG = pid + ('' if tier == 'quick' else '-' + tier)
     t0 = time.time()
     cfg = units_cfg()
     units = [u for u, c in cfg.items() if pid in c['properties']]
